@@ -938,11 +938,13 @@ def gt_select(ctx: Ctx) -> RuleResult:
     ind = [n for n in iter_own_nodes(mi.node) if isinstance(n, ast.Call) and (dotted(n.func) or "").endswith("induced_subgraph")]
     r.require(len(ind) == 1, "minimal_induced_subgraph: induced_subgraph call not found")
     setarg = ind[0].args[1] if len(ind[0].args) > 1 else None
+    # the ancestor closure of the targets: the one name assigned from ancestors_of_iter(<targets>)
+    anc = [n for n in iter_own_nodes(mi.node) if isinstance(n, ast.Assign) and isinstance(n.targets[0], ast.Name)
+           and isinstance(n.value, ast.Call) and isinstance(n.value.func, ast.Attribute) and n.value.func.attr == "ancestors_of_iter"]
+    okanc = len(anc) == 1 and bool(anc[0].value.args) and dotted(anc[0].value.args[0]) == np_
+    anc_name = anc[0].targets[0].id if anc else "<ancestors>"
     oks = isinstance(setarg, ast.BinOp) and isinstance(setarg.op, ast.BitOr) and \
-        {norm_src(setarg.left), norm_src(setarg.right)} == {"all_ancestors", f"set({np_})"}
-    anc = [n for n in iter_own_nodes(mi.node) if isinstance(n, ast.Assign) and dotted(n.targets[0]) == "all_ancestors"]
-    okanc = len(anc) == 1 and isinstance(anc[0].value, ast.Call) and isinstance(anc[0].value.func, ast.Attribute) \
-        and anc[0].value.func.attr == "ancestors_of_iter" and dotted(anc[0].value.args[0]) == np_
+        {norm_src(setarg.left), norm_src(setarg.right)} == {anc_name, f"set({np_})"}
     r.ob(bool(oks and okanc), {"kept": norm_src(setarg) if setarg is not None else None})
     if setarg is not None and not oks:
         if isinstance(setarg, ast.Name) or (isinstance(setarg, ast.Call)):
